@@ -25,12 +25,15 @@ CONSTANTS N,          \* number of data clusters (2..N+1)
           SPC,        \* directory slots per cluster
           ROOT,       \* capacity of the fixed root directory in slots; 0 = root is a cluster chain
           MaxOps,
+          Features,   \* subset of {"handles", "mount"}: file handles with deferred entry write-back; mount / unmount protocol
           Legacy      \* subset of {"rename_delete_first", "no_dotdot_update", "no_capacity_check", "no_rollback",
-                      \*            "create_dir_leak", "rename_into_self", "hint_past_end"}
+                      \*            "create_dir_leak", "rename_into_self", "hint_past_end", "fsinfo_not_dirty_on_free", "no_dirty_flag_on_dir_write"}
 
-VARIABLES fat, dirs, hint, free, op, res, nops
+VARIABLES fat, dirs, hint, free, op, res, nops,
+          hs,        \* open file handles: handle id -> [d, i, cl, sz, dirty]  (the in-memory DirEntryEditor of File)
+          vol        \* [mounted, stDisk, stMount, changed, fiDisk, fiDirty]: status byte (dirty bit) and FSInfo persistence
 
-vars == <<fat, dirs, hint, free, op, res, nops>>
+vars == <<fat, dirs, hint, free, op, res, nops, hs, vol>>
 
 Names == {"a", "A", "b", "L"}
 FoldClass(n) == IF n \in {"a", "A"} THEN 1 ELSE IF n = "b" THEN 2 ELSE 3
@@ -134,11 +137,24 @@ Init ==
    /\ hint = IF ROOT = 0 THEN 3 ELSE 2
    /\ free = IF ROOT = 0 THEN N - 1 ELSE N
    /\ op = [op |-> "init"] /\ res = "ok" /\ nops = 0
+   /\ hs = <<>>
+   /\ vol = [mounted |-> TRUE, stDisk |-> 0, stMount |-> 0, changed |-> FALSE,
+             fiDisk |-> [free |-> IF ROOT = 0 THEN N - 1 ELSE N, next |-> IF ROOT = 0 THEN 3 ELSE 2], fiDirty |-> FALSE]
 
-Done(o, r) == op' = o /\ res' = r /\ nops' = nops + 1
+\* bookkeeping common to every call: a call that changed the table or a directory sets the dirty bit on disk (FsIoAdapter /
+\* File::write call set_dirty_flag) and, when the count or hint changed, marks FSInfo dirty
+Mark == vol' = IF fat' # fat \/ dirs' # dirs
+                THEN [vol EXCEPT !.stDisk = (IF "no_dirty_flag_on_dir_write" \in Legacy /\ fat' = fat THEN @ ELSE 1),
+                                 !.changed = TRUE,
+                                 !.fiDirty = (@ \/ (IF "fsinfo_not_dirty_on_free" \in Legacy THEN free' < free ELSE free' # free) \/ hint' # hint)]
+                ELSE vol
+Done(o, r) == op' = o /\ res' = r /\ nops' = nops + 1 /\ Mark
 Unchanged == UNCHANGED <<fat, dirs, hint, free>>
+KeepH == UNCHANGED hs
+\* the documented contract: an object with a live handle is not removed, renamed or reopened
+Busy(d, i) == \E h \in DOMAIN hs : hs[h].d = d /\ hs[h].i = i
 
-CreateFile(d, n) ==
+CreateFileBody(d, n) ==
    LET i == Find(d, n) o == [op |-> "create_file", d |-> d, n |-> n] IN
    IF i # 0 THEN
       IF dirs[d][i].kind = "f" THEN Unchanged /\ Done(o, "ok") ELSE Unchanged /\ Done(o, "InvalidInput")
@@ -147,7 +163,7 @@ CreateFile(d, n) ==
         /\ dirs' = [dirs EXCEPT ![d] = p.slots]
         /\ Done(o, IF p.ok THEN "ok" ELSE "NotEnoughSpace")
 
-CreateDir(d, n) ==
+CreateDirBody(d, n) ==
    LET i == Find(d, n) o == [op |-> "create_dir", d |-> d, n |-> n] IN
    IF i # 0 THEN
       IF dirs[d][i].kind = "d" THEN Unchanged /\ Done(o, "ok") ELSE Unchanged /\ Done(o, "InvalidInput")
@@ -169,7 +185,7 @@ CreateDir(d, n) ==
 
 HasChildren(c) == \E j \in 1..Len(dirs[c]) : IsLive(dirs[c][j])
 
-RemoveEntry(d, n) ==
+RemoveEntryBody(d, n) ==
    LET i == Find(d, n) o == [op |-> "remove", d |-> d, n |-> n] IN
    IF i = 0 THEN Unchanged /\ Done(o, "NotFound")
    ELSE LET s == dirs[d][i] IN
@@ -186,7 +202,7 @@ RECURSIVE Inside(_, _, _)
 Inside(d, c, fuel) == IF d = c THEN TRUE ELSE IF IsRoot(d) \/ fuel = 0 THEN FALSE
                       ELSE LET up == dirs[d][2].cl IN Inside(IF up = 0 THEN RootId ELSE up, c, fuel - 1)
 
-Rename(d1, n1, d2, n2) ==
+RenameBody(d1, n1, d2, n2) ==
    LET i == Find(d1, n1) o == [op |-> "rename", d |-> d1, n |-> n1, d2 |-> d2, n2 |-> n2] IN
    IF i = 0 THEN Unchanged /\ Done(o, "NotFound")
    ELSE LET s == dirs[d1][i]
@@ -215,7 +231,7 @@ Rename(d1, n1, d2, n2) ==
                         /\ Done(o, "ok")
 
 \* append one cluster of data to a file and write its entry back (write + flush)
-AppendCluster(d, n) ==
+AppendClusterBody(d, n) ==
    LET i == Find(d, n) o == [op |-> "append", d |-> d, n |-> n] IN
    IF i = 0 \/ dirs[d][i].kind # "f" THEN Unchanged /\ Done(o, "NotFound")
    ELSE LET s == dirs[d][i]
@@ -227,7 +243,7 @@ AppendCluster(d, n) ==
                 /\ Done(o, "ok")
 
 \* truncate a file to zero length (seek 0 + truncate + flush)
-Truncate(d, n) ==
+TruncateBody(d, n) ==
    LET i == Find(d, n) o == [op |-> "truncate", d |-> d, n |-> n] IN
    IF i = 0 \/ dirs[d][i].kind # "f" THEN Unchanged /\ Done(o, "NotFound")
    ELSE LET s == dirs[d][i] IN
@@ -236,6 +252,76 @@ Truncate(d, n) ==
         /\ hint' = hint
         /\ dirs' = [dirs EXCEPT ![d][i] = [s EXCEPT !.cl = 0, !.sz = 0]]
         /\ Done(o, "ok")
+
+\* the public calls: contract guards (mounted, no live handle on the object) around the bodies above
+CreateFile(d, n) == KeepH /\ vol.mounted /\ CreateFileBody(d, n)
+CreateDir(d, n) == KeepH /\ vol.mounted /\ CreateDirBody(d, n)
+RemoveEntry(d, n) == KeepH /\ vol.mounted /\ ~Busy(d, Find(d, n)) /\ RemoveEntryBody(d, n)
+Rename(d1, n1, d2, n2) == KeepH /\ vol.mounted /\ ~Busy(d1, Find(d1, n1)) /\ RenameBody(d1, n1, d2, n2)
+AppendCluster(d, n) == KeepH /\ vol.mounted /\ ~Busy(d, Find(d, n)) /\ AppendClusterBody(d, n)
+Truncate(d, n) == KeepH /\ vol.mounted /\ ~Busy(d, Find(d, n)) /\ TruncateBody(d, n)
+
+(* ---------------- file handles: the directory entry is written back on flush / drop only ---------------- *)
+Hid == 1..1
+
+OpenH(d, n) ==
+   LET i == Find(d, n) o == [op |-> "open", d |-> d, n |-> n] IN
+   /\ "handles" \in Features /\ vol.mounted /\ DOMAIN hs = {} /\ i # 0 /\ dirs[d][i].kind = "f"
+   /\ hs' = (1 :> [d |-> d, i |-> i, cl |-> dirs[d][i].cl, sz |-> dirs[d][i].sz, dirty |-> FALSE])
+   /\ Unchanged /\ Done(o, "ok")
+
+\* File::write of one cluster at the end: allocation and data now, size and first cluster only in the handle
+WriteH(h) ==
+   LET o == [op |-> "hwrite", h |-> h]
+       ch == ChainB(fat, hs[h].cl, N + 1)
+       a == AllocIn(fat, hint, free, IF hs[h].cl = 0 THEN 0 ELSE ch[Len(ch)])
+   IN /\ "handles" \in Features /\ vol.mounted
+      /\ IF a.c = 0 THEN Unchanged /\ KeepH /\ Done(o, "NotEnoughSpace")
+         ELSE /\ fat' = a.fat /\ hint' = a.hint /\ free' = a.free /\ UNCHANGED dirs
+              /\ hs' = [hs EXCEPT ![h] = [@ EXCEPT !.cl = IF @ = 0 THEN a.c ELSE @, !.sz = @ + 1, !.dirty = TRUE]]
+              /\ Done(o, "ok")
+
+\* File::truncate at offset 0: the chain is freed at once, the entry still names the old first cluster until flush
+TruncH(h) ==
+   LET o == [op |-> "htrunc", h |-> h] IN
+   /\ "handles" \in Features /\ vol.mounted
+   /\ fat' = (IF hs[h].cl = 0 THEN fat ELSE FreeChainIn(fat, hs[h].cl))
+   /\ free' = free + Len(ChainB(fat, hs[h].cl, N + 1))
+   /\ hint' = hint /\ UNCHANGED dirs
+   /\ hs' = [hs EXCEPT ![h] = [@ EXCEPT !.cl = 0, !.sz = 0, !.dirty = TRUE]]
+   /\ Done(o, "ok")
+
+\* File::flush / drop: entry write-back (DirEntryEditor::flush), then the handle may go
+FlushH(h, close) ==
+   LET o == [op |-> IF close THEN "hclose" ELSE "hflush", h |-> h] IN
+   /\ "handles" \in Features /\ vol.mounted
+   /\ dirs' = IF hs[h].dirty THEN [dirs EXCEPT ![hs[h].d][hs[h].i] = [@ EXCEPT !.cl = hs[h].cl, !.sz = hs[h].sz]] ELSE dirs
+   /\ hs' = IF close THEN <<>> ELSE [hs EXCEPT ![h].dirty = FALSE]
+   /\ UNCHANGED <<fat, hint, free>>
+   \* (a timestamp-only write-back would not count as a change; a size / cluster write-back happens only after a write,
+   \*  which has set the dirty bit already)
+   /\ op' = o /\ res' = "ok" /\ nops' = nops + 1
+   /\ vol' = vol
+
+(* ---------------- mount / unmount: status byte and FSInfo ---------------- *)
+\* unmount: FSInfo is written when dirty (FAT32), then the status byte gets its mount-time value back
+Unmount ==
+   /\ "mount" \in Features /\ vol.mounted /\ DOMAIN hs = {}
+   /\ vol' = [vol EXCEPT !.mounted = FALSE, !.stDisk = vol.stMount,
+                         !.fiDisk = IF vol.fiDirty THEN [free |-> free, next |-> hint] ELSE @, !.fiDirty = FALSE]
+   /\ Unchanged /\ KeepH /\ op' = [op |-> "unmount"] /\ res' = "ok" /\ nops' = nops + 1
+\* forgetting the FileSystem object: nothing is written
+Abandon ==
+   /\ "mount" \in Features /\ vol.mounted /\ DOMAIN hs = {}
+   /\ vol' = [vol EXCEPT !.mounted = FALSE, !.fiDirty = FALSE]
+   /\ Unchanged /\ KeepH /\ op' = [op |-> "abandon"] /\ res' = "ok" /\ nops' = nops + 1
+\* mount: the status byte is remembered; a dirty volume's stored free count is not trusted (recounted from the table)
+Mount ==
+   /\ "mount" \in Features /\ ~vol.mounted
+   /\ vol' = [vol EXCEPT !.mounted = TRUE, !.stMount = vol.stDisk, !.changed = FALSE]
+   /\ free' = (IF vol.stDisk = 1 THEN N - Cardinality(Used) ELSE vol.fiDisk.free)
+   /\ hint' = (IF vol.fiDisk.next \in Cl THEN vol.fiDisk.next ELSE 2)
+   /\ UNCHANGED <<fat, dirs>> /\ KeepH /\ op' = [op |-> "mount"] /\ res' = "ok" /\ nops' = nops + 1
 
 Next ==
    /\ nops < MaxOps
@@ -246,12 +332,21 @@ Next ==
         \/ AppendCluster(d, n)
         \/ Truncate(d, n)
         \/ \E d2 \in DirIds : \E n2 \in Names : Rename(d, n, d2, n2)
+        \/ OpenH(d, n)
+        \/ (\E h \in DOMAIN hs : WriteH(h) \/ TruncH(h) \/ FlushH(h, FALSE) \/ FlushH(h, TRUE))
+        \/ Unmount \/ Abandon \/ Mount
 
 Spec == Init /\ [][Next]_vars
 
 (* ---------------- invariants: C03 / C05 / C10 at design level ---------------- *)
 LiveEntries == {<<d, i>> : d \in DirIds, i \in 1..N * SPC + ROOT} \cap {<<d, i>> : d \in DirIds, i \in 1..100}
-Entries == UNION {{[d |-> d, i |-> i, s |-> dirs[d][i]] : i \in {j \in 1..Len(dirs[d]) : IsLive(dirs[d][j])}} : d \in DirIds}
+\* the entry of a file with a live handle is seen through the handle (size and first cluster are written back on flush / drop):
+\* the structural invariants hold for this effective view at EVERY step, and for the raw image whenever no handle is dirty.
+\* This is the design-level statement of finding D-F20.
+EffSlot(d, i) == IF \E h \in DOMAIN hs : hs[h].d = d /\ hs[h].i = i /\ hs[h].dirty
+                 THEN LET h == CHOOSE x \in DOMAIN hs : hs[x].d = d /\ hs[x].i = i IN [dirs[d][i] EXCEPT !.cl = hs[h].cl, !.sz = hs[h].sz]
+                 ELSE dirs[d][i]
+Entries == UNION {{[d |-> d, i |-> i, s |-> EffSlot(d, i)] : i \in {j \in 1..Len(dirs[d]) : IsLive(dirs[d][j])}} : d \in DirIds}
 
 OwnedChains == [e \in Entries |-> Chain(e.s.cl)]
 RootChain == IF ROOT = 0 THEN Chain(2) ELSE <<>>
@@ -288,6 +383,14 @@ HintInRange == hint \in Cl                                                     \
 StructInv == /\ ChainsTerminate /\ NoCrossLinkB /\ NoLostB /\ SizeMatch /\ DirsKnown /\ DirsReachable /\ DotEntries
              /\ NoOrphanLfn /\ RunsComplete /\ NoDup /\ WithinCapacity
 
+\* C12: from the first change of a session until unmount the dirty bit is set on disk; unmount restores the mount-time byte
+DirtyBracket == (vol.mounted /\ vol.changed) => vol.stDisk = 1
+StatusNeverCleared == vol.mounted => vol.stDisk >= vol.stMount
+\* C05: a cleanly unmounted volume (dirty bit clear) stores the exact count and an in-range hint
+FsInfoExact == (~vol.mounted /\ vol.stDisk = 0) => (vol.fiDisk.free = N - Cardinality(Used) /\ vol.fiDisk.next \in Cl)
+\* the in-memory count is exact whenever the volume is mounted
+FreeExactMounted == vol.mounted => free = N - Cardinality(Used)
+
 (* ---------------- refinement of the reference tree (C01) as an action property ---------------- *)
 PathOfDir(d) == LET hit == {f \in Tree : f.kind = "d"} IN d   \* (paths are recomputed through Facts)
 
@@ -309,7 +412,7 @@ Refines ==
                   t2 = t \/ t2 = t \cup {[p |-> p, kind |-> "d", sz |-> 0]}
              [] o.op = "remove" ->
                   Cardinality(t2) = Cardinality(t) - 1 /\ t2 \subseteq t
-             [] o.op \in {"append", "truncate"} ->
+             [] o.op \in {"append", "truncate", "open", "hwrite", "htrunc", "hflush", "hclose", "unmount", "abandon", "mount"} ->
                   {[p |-> f.p, kind |-> f.kind] : f \in t2} = {[p |-> f.p, kind |-> f.kind] : f \in t}
              [] o.op = "rename" ->
                   \* same number of objects, same multiset of (kind, size): nothing created, lost or emptied
